@@ -258,8 +258,76 @@ def fail_closed(vc):
     vc.prove("post.nothing-written", sink.writes == [])
 
 
+# ---------------------------------------------------------------------------------------
+# the crypto registry (bec2format/crypto.py): every create_* / generate_* / random_bytes call reaches the implementation that
+# was registered LAST, with exactly the caller's arguments; registering returns the implementation (decorator use); the
+# unregistered base classes fail closed (NotImplementedError) - the precondition of "writing fails rather than emitting
+# plaintext when no cipher is registered".
+
+@proof("C06/crypto.registry", functions=[(CRY, "create_AES128"), (CRY, "register_AES128"), (CRY, "register_PublicEccKey"),
+                                        (CRY, "register_PrivateEccKey"), (CRY, "register_random_bytes"), (CRY, "random_bytes"),
+                                        (CRY, "create_public_ecc_key_from_der_fmt"), (CRY, "create_public_ecc_key_from_raw_fmt"),
+                                        (CRY, "generate_private_ecc_key"), (CRY, "AES128.__init__"), (CRY, "AES128.encrypt"),
+                                        (CRY, "AES128.decrypt"), (CRY, "AES128.mac"), (CRY, "PublicEccKey.create_from_raw_fmt"),
+                                        (CRY, "PublicEccKey.to_raw_bin_fmt")],
+       family=lambda seed, tier: [dict()])
+def crypto_registry(vc):
+    R = vc.module(CRY)
+    names = ("__AES128", "__PublicEccKey", "__PrivateEccKey", "__random_bytes")
+    saved = {n: R.__dict__[n] for n in names}
+    log = []
+
+    class Aes(R.AES128):
+        pass
+
+    class Pub(R.PublicEccKey):
+        @classmethod
+        def create_from_der_fmt(cls, der_fmt):
+            log.append(("pub.der", cls, der_fmt))
+            return "PUB"
+
+        def to_der_fmt(self):
+            return bytes(range(27)) + b"X" * 32 + b"Y" * 32
+
+    class Priv(R.PrivateEccKey):
+        @classmethod
+        def generate(cls):
+            log.append(("priv.generate", cls))
+            return "PRIV"
+
+    def rnd(n):
+        log.append(("rnd", n))
+        return b"r" * n
+
+    try:
+        vc.ground("register_*-return-the-implementation", R.register_AES128(Aes) is Aes and R.register_PublicEccKey(Pub) is Pub
+                  and R.register_PrivateEccKey(Priv) is Priv and R.register_random_bytes(rnd) is rnd)
+        a = R.create_AES128(b"K" * 16, b"I" * 16)
+        b = R.create_AES128(b"k" * 16)
+        vc.ground("create_AES128=registered-class(key,iv)", type(a) is Aes and a._key == b"K" * 16 and a._iv == b"I" * 16)
+        vc.ground("create_AES128-without-iv=>None(the-adapter's-zero-IV-default)", type(b) is Aes and b._key == b"k" * 16 and b._iv is None)
+        vc.ground("create_public_ecc_key_from_der_fmt->registered.create_from_der_fmt(der)",
+                  R.create_public_ecc_key_from_der_fmt(b"DER") == "PUB" and log[-1] == ("pub.der", Pub, b"DER"))
+        hdr = bytes.fromhex("3059301306072A8648CE3D020106082A8648CE3D03010703420004")
+        vc.ground("create_public_ecc_key_from_raw_fmt->registered.create_from_der_fmt(27-byte-header+raw)",
+                  R.create_public_ecc_key_from_raw_fmt(b"R" * 64) == "PUB" and log[-1] == ("pub.der", Pub, hdr + b"R" * 64))
+        vc.ground("to_raw_bin_fmt=der-without-its-27-byte-header", Pub().to_raw_bin_fmt() == b"X" * 32 + b"Y" * 32)
+        vc.ground("generate_private_ecc_key->registered.generate()", R.generate_private_ecc_key() == "PRIV" and log[-1] == ("priv.generate", Priv))
+        vc.ground("random_bytes(n)->registered(n)", R.random_bytes(16) == b"r" * 16 and log[-1] == ("rnd", 16))
+        R.register_AES128(R.AES128)
+        R.register_random_bytes(saved["__random_bytes"])
+        base = R.create_AES128(b"K" * 16)
+        outs = [vc.call(base.encrypt, b"x" * 16), vc.call(base.decrypt, b"x" * 16), vc.call(base.mac, b"x" * 16)]
+        vc.ground("unregistered-cipher-fails-closed(NotImplementedError)", all(o.raised(NotImplementedError) for o in outs))
+        vc.ground("last-registration-wins", type(base) is R.AES128)
+    finally:
+        for n, v in saved.items():
+            setattr(R, n, v)
+    vc.ground("registry-restored", all(R.__dict__[n] is saved[n] for n in names))
+    vc.cover("registry")
+
+
 # the public writer / reader hand over the caller's session key (contracts of C03 / C05, obligations here too)
 from pyvc.harness import reuse as _reuse
-from contracts import C03 as _C03x, C05 as _C05x
 _reuse("C03/write_file.passes-key-and-offset", "C06/write_file.passes-key-and-offset")
 _reuse("C05/read_file.passes-flags-and-key", "C06/read_file.passes-flags-and-key")
